@@ -13,7 +13,8 @@ explicit configuration data by the Lean driver only):
        <names> <groups> <skip> <start> <prods>
         -> ok sl.sc.el.ec/<get_orig_text>;... (all nodes of the raw tree, pre-order) | err ParsingError <l> <c>
          | err LexicalError <l> <c>      the model builds the parser from the productions (LL model of C01),
-           tokenizes and parses by itself, carrying the positions through every roll-back
+           tokenizes and parses by itself, carrying the positions through every roll-back.  DIAGNOSTIC only:
+           tree shape / accept-reject are C01-C03; spans are judged on the real tree (`tree` lines, oracle)
   tree cfg=<i> g=<j> smart=<0|1> <spanKinds> <synonyms> <keywords> <endName> <skip> <s|l> <text>
        <re-table> <shape>  -> ok sl.sc.el.ec/<get_orig_text>;...   (all nodes of the raw tree, pre-order)
 
@@ -389,9 +390,14 @@ def impl(case):
 
 
 def observable(i, line):
-    """names/values of tokens are not C04; get_orig_text is observed on spans that lie inside the text (the
+    """names/values of tokens are not C04; the model's own parse (`ptree`) is not C04; get_orig_text is observed on spans that lie inside the text (the
     spans tokens and nodes carry) — its assertions on other spans are compared as diagnostics only"""
     if line.startswith("tokv "):
+        return False
+    if line.startswith("ptree "):
+        # the model parses by itself here (LL model of C01-C03): a different tree shape or outcome is a matter of
+        # those properties, not of C04 - compared as a diagnostic only.  Spans are judged on the REAL tree: by the
+        # oracle and by the `tree` lines, which carry the real shape as data and ask the model for the spans.
         return False
     if line.startswith("got "):
         f = line.split()
@@ -673,11 +679,15 @@ def oracle(case, replies):
     res = {}
     for smart in (1, 0):
         parser = _parser(p["cfg"], gi, smart)
+        ns = [t for t in toks if t.name not in parser.skip_tokens]
         try:
             root = parser.parse(text, do_cleanup=False, src_name="t")
-        except ll.ParsingError:
+        except ll.ParsingError as x:
+            # judged on the real token list only: the error names the start of one of the tokens handed to the parser
+            if x.src_pos.coords not in {t.start_pos.coords for t in ns}:
+                return "parsing-error-pos: ParsingError.src_pos %s is not the start of a (non-skipped) token" % (
+                    x.src_pos.coords,)
             continue
-        ns = [t for t in toks if t.name not in parser.skip_tokens]
         k = 0
         spans = []
         stack = [(root, False)]
@@ -1027,8 +1037,9 @@ LEVEL_NOTE = (
     "lex_error_line, lex_error_first, lex_error_complete, lex_error_unique, no_out_of_fuel, bases_std (generated "
     "offsets). Hypotheses discharged at run time by the driver on every request: ReIn (every match ends inside its "
     "line: tableOk), parserOk (suffix symbols are not terminals, $END$ is). Rest on the sampled correspondence only: "
-    "that the model's control flow is the code's (rstrip/split of str input, synonyms/keywords, LL.construct = the "
-    "constructor, which is C01-C03's subject), that `re` behaves as a function of (line, column), the flattening of "
+    "that the model's control flow is the code's (rstrip/split of str input, synonyms/keywords), the model's own "
+    "parse (`ptree` lines: LL.construct + runP, compared as a diagnostic only - shape and accept/reject are "
+    "C01-C03's subject; the verdict uses the `tree` lines, which take the real shape as data), that `re` behaves as a function of (line, column), the flattening of "
     "ProdSequence nodes (tree lines take the shape from the real parser there); list/map templates are C05; spans "
     "after cleanup are checked by the oracle only.")
 TECHNIQUE = ("Lean 4 theorems (relational run of the scanner; invariant of the positioned LL stack machine, simulation "
